@@ -6,7 +6,9 @@
 package ingestfuzz
 
 import (
+	"fmt"
 	"math"
+	"strings"
 
 	"github.com/openconfig/gnmi/metadata"
 	pb "github.com/openconfig/gnmi/proto/gnmi"
@@ -14,10 +16,10 @@ import (
 	"pgregory.net/rapid"
 )
 
-// Scenario is a case of any of the four targets; messages are kept as wire
+// Scenario is a case of any of the targets; messages are kept as wire
 // bytes (base64 in JSON) so that exactly what was fed can be replayed.
 type Scenario struct {
-	// Kind: ingest | subscribe | client
+	// Kind: ingest | subscribe | client | life
 	Kind string `json:"kind"`
 	// Pre: valid history applied first (Notification wire bytes, target "dev").
 	Pre [][]byte `json:"pre,omitempty"`
@@ -33,6 +35,39 @@ type Scenario struct {
 	Timestamp string `json:"timestamp,omitempty"`
 	// Text is a human-readable rendering of Msgs (not used by replay).
 	Text []string `json:"text,omitempty"`
+
+	// Kind "life": one cache and one subscribe.Server live across Ops.
+	// Opts: server options (stats acl-allow acl-deny-odd acl-noauth timeout-1s timeout-1h nodup hooks).
+	Opts []string `json:"opts,omitempty"`
+	// Targets: number of targets the cache is created with (dev, other, t2, t3, ...).
+	Targets int      `json:"targets,omitempty"`
+	Ops     []LifeOp `json:"ops,omitempty"`
+}
+
+// LifeOp is one step in the life of the (cache, server) pair of a "life" scenario.
+type LifeOp struct {
+	// Op: n (notification) | r (one Subscribe RPC) | l (lifecycle call) | p (valid probe RPC)
+	Op string `json:"op"`
+	// Msg: Notification wire bytes (n).
+	Msg []byte `json:"msg,omitempty"`
+	// Stamp: n goes through the collector's update closure for Target.
+	Stamp bool `json:"stamp,omitempty"`
+	// Reqs: SubscribeRequest wire bytes of the RPC, in order (r).
+	Reqs [][]byte `json:"reqs,omitempty"`
+	// Hold: the RPC's stream stays open during this many following steps (r).
+	Hold int `json:"hold,omitempty"`
+	// Cancel: the RPC ends by cancellation of its context rather than by EOF (r).
+	Cancel bool `json:"cancel,omitempty"`
+	// NoAuth: the RPC's context carries no credentials (matters with acl-noauth) (r).
+	NoAuth bool `json:"noauth,omitempty"`
+	// Peer: number making up the peer address of the RPC (r, p).
+	Peer int `json:"peer,omitempty"`
+	// Call: sync connect connecterr updmeta updsize reset remove add stats (l).
+	Call string `json:"call,omitempty"`
+	// Target: index of the target (l, p, stamped n).
+	Target int `json:"target,omitempty"`
+	// Text renders the message(s) (not used by replay).
+	Text string `json:"text,omitempty"`
 }
 
 var metaNames = []string{
@@ -41,20 +76,137 @@ var metaNames = []string{
 	metadata.Size, metadata.LatestTimestamp, metadata.ConnectError, metadata.ServerName, "latency", "unknownName", "*",
 }
 
+// ---- sizes ---------------------------------------------------------------------------------------
+//
+// Every count and length of a message is a size dimension. Most cases keep all
+// of them small (throughput); a modest fraction of the cases makes one or two
+// dimensions large, sampled around the usual capacity steps, so that code with
+// a fixed-size buffer, a small-size fast path or a growth step is exercised on
+// both sides of its threshold.
+
+const (
+	dimKeys     = "keys"     // keys of one path element (0-12)
+	dimElems    = "elems"    // elements of one path, prefix included (0-40)
+	dimEntries  = "entries"  // updates / deletes of one notification (0-300)
+	dimSubs     = "subs"     // subscriptions of one list (0-100)
+	dimLeaflist = "leaflist" // elements of a leaf-list value (0-300)
+	dimNest     = "nest"     // nesting depth of leaf-lists (0-40)
+	dimStr      = "strlen"   // length of names, key values, targets, origins, string/bytes/json values (0-5000)
+	dimMsgs     = "msgs"     // messages of one case: notifications, polls on one stream, responses (up to 400)
+	dimPre      = "pre"      // size of the valid pre-state (up to 300 notifications)
+)
+
+var allDims = []string{dimKeys, dimElems, dimEntries, dimSubs, dimLeaflist, dimNest, dimStr, dimMsgs, dimPre}
+
+var capSteps = []int{3, 4, 5, 8, 9, 16, 17, 32, 33, 64, 65, 128, 129, 256, 257}
+
+// bigDims holds the dimensions that are large in the case being generated.
+// Generation is single-threaded and every scenario generator sets it first,
+// from rapid draws, so cases replay and shrink.
+var bigDims map[string]bool
+
+// drawSizeClass decides which dimensions (none for most cases) are large.
+func drawSizeClass(t *rapid.T, dims []string) {
+	bigDims = nil
+	n := rapid.SampledFrom([]int{0, 0, 0, 0, 0, 0, 0, 1, 1, 2}).Draw(t, "sizeclass")
+	for ; n > 0; n-- {
+		if bigDims == nil {
+			bigDims = map[string]bool{}
+		}
+		bigDims[rapid.SampledFrom(dims).Draw(t, "bigdim")] = true
+	}
+}
+
+// genLarge draws a size in [0, max]: half of the time next to a capacity step.
+func genLarge(t *rapid.T, label string, max int) int {
+	if rapid.Bool().Draw(t, label+"-atstep") {
+		s := rapid.SampledFrom(capSteps).Draw(t, label+"-step") + rapid.IntRange(-1, 1).Draw(t, label+"-off")
+		if s > max {
+			s = max
+		}
+		return s
+	}
+	return rapid.IntRange(0, max).Draw(t, label+"-large")
+}
+
+// genSize draws a count of dimension dim: from small unless the dimension is
+// large in this case (then two draws out of three are large).
+func genSize(t *rapid.T, dim, label string, small []int, max int) int {
+	if bigDims[dim] && rapid.IntRange(0, 2).Draw(t, label+"-big") > 0 {
+		return genLarge(t, label, max)
+	}
+	return rapid.SampledFrom(small).Draw(t, label)
+}
+
+func upTo(n int) []int {
+	out := make([]int, n+1)
+	for i := range out {
+		out[i] = i
+	}
+	return out
+}
+
+var longUnits = []string{"a", "ab", "a/b", "é", "*", "[k=v]", "%s", " ", "meta", " "}
+
+// genStr draws a string from the alphabet; when strings are a large dimension,
+// one draw in four is a long string (a repeated unit, so that it is cheap to draw).
+func genStr(t *rapid.T, label string, alphabet []string) string {
+	if bigDims[dimStr] && rapid.IntRange(0, 3).Draw(t, label+"-long") == 3 {
+		unit := rapid.SampledFrom(longUnits).Draw(t, label+"-unit")
+		n := genLarge(t, label+"-len", 5000)
+		s := strings.Repeat(unit, n/len(unit)+1)[:n]
+		return strings.ToValidUTF8(s, "?")
+	}
+	return rapid.SampledFrom(alphabet).Draw(t, label)
+}
+
+// genEnum draws the number of an open proto3 enum with nvalid declared values:
+// mostly declared ones, otherwise one of many distinct undeclared numbers —
+// next to the range, negative, far away, arbitrary.
+func genEnum(t *rapid.T, label string, nvalid int32) int32 {
+	switch rapid.SampledFrom([]int{0, 0, 0, 0, 0, 0, 1, 2, 3, 4}).Draw(t, label+"-class") {
+	case 0:
+		return rapid.Int32Range(0, nvalid-1).Draw(t, label)
+	case 1:
+		return nvalid + rapid.Int32Range(0, 60).Draw(t, label+"-above")
+	case 2:
+		return -1 - rapid.Int32Range(0, 60).Draw(t, label+"-below")
+	case 3:
+		return rapid.SampledFrom([]int32{math.MaxInt32, math.MinInt32, math.MaxInt32 - 1, 255, 256, 65535, 65536, 1 << 20, -(1 << 20)}).Draw(t, label+"-far")
+	default:
+		return rapid.Int32().Draw(t, label+"-any")
+	}
+}
+
 func genName(t *rapid.T) string {
-	return rapid.SampledFrom([]string{"a", "a", "b", "b", "c", "", "*", "meta", "/", "a/b", "é", "..."}).Draw(t, "name")
+	return genStr(t, "name", []string{"a", "a", "b", "b", "c", "", "*", "meta", "/", "a/b", "é", "..."})
+}
+
+func genKeys(t *rapid.T) map[string]string {
+	m := map[string]string{}
+	n := genSize(t, dimKeys, "nk", []int{1, 1, 2, 2, 3, 0}, 12)
+	for j := 0; j < n; j++ {
+		// the first keys come from a small alphabet (collisions, the empty key); the others are distinct
+		k := fmt.Sprintf("k%d", j)
+		if j < 3 || rapid.IntRange(0, 7).Draw(t, "keyalpha") == 0 {
+			k = genStr(t, "key", []string{"k", "j", ""})
+		}
+		m[k] = genStr(t, "kv", []string{"1", "", "*", "meta", "2", "x/y"})
+	}
+	return m
 }
 
 func genElems(t *rapid.T, max int) []*pb.PathElem {
-	n := rapid.IntRange(0, max).Draw(t, "nelem")
+	n := genSize(t, dimElems, "nelem", upTo(max), 40)
+	keyedOdds := 5
+	if bigDims[dimKeys] {
+		keyedOdds = 1
+	}
 	var out []*pb.PathElem
 	for i := 0; i < n; i++ {
 		e := &pb.PathElem{Name: genName(t)}
-		if rapid.IntRange(0, 5).Draw(t, "keyed") == 0 {
-			e.Key = map[string]string{}
-			for j := rapid.IntRange(1, 2).Draw(t, "nk"); j > 0; j-- {
-				e.Key[rapid.SampledFrom([]string{"k", "j", ""}).Draw(t, "key")] = rapid.SampledFrom([]string{"1", "", "*", "meta"}).Draw(t, "kv")
-			}
+		if rapid.IntRange(0, keyedOdds).Draw(t, "keyed") == 0 {
+			e.Key = genKeys(t)
 		}
 		out = append(out, e)
 	}
@@ -75,13 +227,16 @@ func genPath(t *rapid.T, allowNil bool) *pb.Path {
 		if rapid.IntRange(0, 3).Draw(t, "deeper") == 0 {
 			p.Elem = append(p.Elem, &pb.PathElem{Name: rapid.SampledFrom([]string{"window", "2s", "avg", "x"}).Draw(t, "m3")})
 		}
+		if bigDims[dimKeys] && rapid.Bool().Draw(t, "metakeyed") {
+			p.Elem[len(p.Elem)-1].Key = genKeys(t)
+		}
 		return p
 	case shape == 5:
 		// deprecated element encoding
-		n := rapid.IntRange(0, 3).Draw(t, "nelement")
+		n := genSize(t, dimElems, "nelement", upTo(3), 40)
 		p := &pb.Path{}
 		for i := 0; i < n; i++ {
-			p.Element = append(p.Element, rapid.SampledFrom([]string{"a", "b", "meta", "sync", "*", ""}).Draw(t, "element"))
+			p.Element = append(p.Element, genStr(t, "element", []string{"a", "b", "meta", "sync", "*", ""}))
 		}
 		return p
 	case shape == 6:
@@ -90,24 +245,58 @@ func genPath(t *rapid.T, allowNil bool) *pb.Path {
 	default:
 		p := &pb.Path{Elem: genElems(t, 3)}
 		if rapid.IntRange(0, 5).Draw(t, "porigin") == 0 {
-			p.Origin = rapid.SampledFrom([]string{"o", "meta", "openconfig"}).Draw(t, "pathorigin")
+			p.Origin = genStr(t, "pathorigin", []string{"o", "meta", "openconfig"})
 		}
 		if rapid.IntRange(0, 9).Draw(t, "ptarget") == 0 {
-			p.Target = rapid.SampledFrom([]string{"dev", "other", "*"}).Draw(t, "pathtarget")
+			p.Target = genStr(t, "pathtarget", []string{"dev", "other", "*"})
 		}
 		return p
 	}
 }
 
+// genLeaflist draws a leaf-list value: elements of any arm, nested to some depth.
+func genLeaflist(t *rapid.T, depth int) *pb.TypedValue {
+	sa := &pb.ScalarArray{}
+	n := genSize(t, dimLeaflist, "nll", upTo(3), 300)
+	mixed := rapid.IntRange(0, 3).Draw(t, "llmixed") == 0
+	for i := n; i > 0; i-- {
+		if mixed && depth < 3 {
+			sa.Element = append(sa.Element, genValueDepth(t, depth+1))
+		} else {
+			sa.Element = append(sa.Element, &pb.TypedValue{Value: &pb.TypedValue_IntVal{IntVal: int64(i)}})
+		}
+	}
+	if rapid.IntRange(0, 3).Draw(t, "emptyelem") == 0 {
+		sa.Element = append(sa.Element, &pb.TypedValue{})
+	}
+	tv := &pb.TypedValue{Value: &pb.TypedValue_LeaflistVal{LeaflistVal: sa}}
+	if depth == 0 {
+		// a chain of leaf-lists inside leaf-lists
+		for d := genSize(t, dimNest, "llnest", []int{0, 0, 0, 0, 1, 2}, 40); d > 0; d-- {
+			tv = &pb.TypedValue{Value: &pb.TypedValue_LeaflistVal{LeaflistVal: &pb.ScalarArray{Element: []*pb.TypedValue{tv}}}}
+		}
+	}
+	return tv
+}
+
 // genValue draws a TypedValue over every oneof arm, unset and nil.
-func genValue(t *rapid.T) *pb.TypedValue {
-	switch rapid.IntRange(0, 16).Draw(t, "arm") {
+func genValue(t *rapid.T) *pb.TypedValue { return genValueDepth(t, 0) }
+
+func genValueDepth(t *rapid.T, depth int) *pb.TypedValue {
+	arm := rapid.IntRange(0, 16).Draw(t, "arm")
+	if depth == 0 && (bigDims[dimLeaflist] || bigDims[dimNest]) && rapid.Bool().Draw(t, "preferll") {
+		arm = 10
+	}
+	switch arm {
 	case 0:
+		if depth > 0 {
+			return &pb.TypedValue{} // a list cannot hold nil
+		}
 		return nil
 	case 1:
 		return &pb.TypedValue{}
 	case 2:
-		return &pb.TypedValue{Value: &pb.TypedValue_StringVal{StringVal: rapid.SampledFrom([]string{"", "x", "true", "1"}).Draw(t, "s")}}
+		return &pb.TypedValue{Value: &pb.TypedValue_StringVal{StringVal: genStr(t, "s", []string{"", "x", "true", "1"})}}
 	case 3:
 		return &pb.TypedValue{Value: &pb.TypedValue_IntVal{IntVal: rapid.SampledFrom([]int64{0, 1, -1, math.MaxInt64, math.MinInt64}).Draw(t, "i")}}
 	case 4:
@@ -115,7 +304,7 @@ func genValue(t *rapid.T) *pb.TypedValue {
 	case 5:
 		return &pb.TypedValue{Value: &pb.TypedValue_BoolVal{BoolVal: rapid.Bool().Draw(t, "b")}}
 	case 6:
-		return &pb.TypedValue{Value: &pb.TypedValue_BytesVal{BytesVal: []byte(rapid.SampledFrom([]string{"", "\x00\xff"}).Draw(t, "by"))}}
+		return &pb.TypedValue{Value: &pb.TypedValue_BytesVal{BytesVal: []byte(genStr(t, "by", []string{"", "\x00\xff"}))}}
 	case 7:
 		return &pb.TypedValue{Value: &pb.TypedValue_FloatVal{FloatVal: rapid.SampledFrom([]float32{0, 1.5, float32(math.NaN())}).Draw(t, "f")}}
 	case 8:
@@ -124,22 +313,15 @@ func genValue(t *rapid.T) *pb.TypedValue {
 		if rapid.Bool().Draw(t, "nildec") {
 			return &pb.TypedValue{Value: &pb.TypedValue_DecimalVal{DecimalVal: &pb.Decimal64{}}}
 		}
-		return &pb.TypedValue{Value: &pb.TypedValue_DecimalVal{DecimalVal: &pb.Decimal64{Digits: 12345, Precision: rapid.SampledFrom([]uint32{0, 2, 400}).Draw(t, "prec")}}}
+		return &pb.TypedValue{Value: &pb.TypedValue_DecimalVal{DecimalVal: &pb.Decimal64{Digits: 12345, Precision: rapid.SampledFrom([]uint32{0, 2, 400, math.MaxUint32}).Draw(t, "prec")}}}
 	case 10:
-		sa := &pb.ScalarArray{}
-		for i := rapid.IntRange(0, 3).Draw(t, "nll"); i > 0; i-- {
-			sa.Element = append(sa.Element, &pb.TypedValue{Value: &pb.TypedValue_IntVal{IntVal: int64(i)}})
-		}
-		if rapid.IntRange(0, 3).Draw(t, "emptyelem") == 0 {
-			sa.Element = append(sa.Element, &pb.TypedValue{})
-		}
-		return &pb.TypedValue{Value: &pb.TypedValue_LeaflistVal{LeaflistVal: sa}}
+		return genLeaflist(t, depth)
 	case 11:
-		return &pb.TypedValue{Value: &pb.TypedValue_JsonVal{JsonVal: []byte(rapid.SampledFrom([]string{`{"a":1}`, `not json`, ``}).Draw(t, "j"))}}
+		return &pb.TypedValue{Value: &pb.TypedValue_JsonVal{JsonVal: []byte(genStr(t, "j", []string{`{"a":1}`, `not json`, ``, `[[[[[[[[[[1]]]]]]]]]]`}))}}
 	case 12:
-		return &pb.TypedValue{Value: &pb.TypedValue_JsonIetfVal{JsonIetfVal: []byte(rapid.SampledFrom([]string{`[1,2]`, `{`, ``}).Draw(t, "ji"))}}
+		return &pb.TypedValue{Value: &pb.TypedValue_JsonIetfVal{JsonIetfVal: []byte(genStr(t, "ji", []string{`[1,2]`, `{`, ``}))}}
 	case 13:
-		return &pb.TypedValue{Value: &pb.TypedValue_AsciiVal{AsciiVal: "ascii"}}
+		return &pb.TypedValue{Value: &pb.TypedValue_AsciiVal{AsciiVal: genStr(t, "ascii", []string{"ascii"})}}
 	case 14:
 		return &pb.TypedValue{Value: &pb.TypedValue_ProtoBytes{ProtoBytes: []byte{1, 2, 3}}}
 	case 15:
@@ -156,7 +338,7 @@ func genTimestamp(t *rapid.T) int64 {
 func genUpdate(t *rapid.T) *pb.Update {
 	u := &pb.Update{Path: genPath(t, true), Val: genValue(t)}
 	if rapid.IntRange(0, 7).Draw(t, "deprecatedvalue") == 0 {
-		u.Value = &pb.Value{Value: []byte(rapid.SampledFrom([]string{`1`, `{"a":1}`, `x`, ``}).Draw(t, "dv")), Type: pb.Encoding(rapid.IntRange(0, 5).Draw(t, "enc"))}
+		u.Value = &pb.Value{Value: []byte(genStr(t, "dv", []string{`1`, `{"a":1}`, `x`, ``})), Type: pb.Encoding(genEnum(t, "enc", 5))}
 		if rapid.Bool().Draw(t, "onlydeprecated") {
 			u.Val = nil
 		}
@@ -167,8 +349,8 @@ func genUpdate(t *rapid.T) *pb.Update {
 	return u
 }
 
-// genNotification draws a hostile notification.
-func genNotification(t *rapid.T) *pb.Notification {
+// genNotification draws a hostile notification for one of the targets.
+func genNotification(t *rapid.T, targets []string) *pb.Notification {
 	n := &pb.Notification{Timestamp: genTimestamp(t)}
 	switch rapid.IntRange(0, 9).Draw(t, "prefixshape") {
 	case 0:
@@ -176,26 +358,33 @@ func genNotification(t *rapid.T) *pb.Notification {
 	case 1:
 		n.Prefix = &pb.Path{}
 	case 2:
-		n.Prefix = &pb.Path{Target: "dev"}
+		n.Prefix = &pb.Path{Target: targets[0]}
 	default:
 		n.Prefix = genPath(t, false)
-		n.Prefix.Target = rapid.SampledFrom([]string{"dev", "dev", "dev", "dev", "", "other", "nosuch", "*"}).Draw(t, "ptarget")
-		n.Prefix.Origin = rapid.SampledFrom([]string{"", "", "o", "meta", "openconfig"}).Draw(t, "porigin")
+		if rapid.IntRange(0, 7).Draw(t, "ptargetvalid") < 5 {
+			n.Prefix.Target = rapid.SampledFrom(targets).Draw(t, "ptarget")
+			if rapid.Bool().Draw(t, "ptargetfirst") {
+				n.Prefix.Target = targets[0]
+			}
+		} else {
+			n.Prefix.Target = genStr(t, "ptargetodd", []string{"", "nosuch", "*"})
+		}
+		n.Prefix.Origin = genStr(t, "porigin", []string{"", "", "o", "meta", "openconfig"})
 	}
 	n.Atomic = rapid.IntRange(0, 4).Draw(t, "atomic") == 0
-	for i := rapid.SampledFrom([]int{0, 1, 1, 1, 2, 3}).Draw(t, "nu"); i > 0; i-- {
+	for i := genSize(t, dimEntries, "nu", []int{0, 1, 1, 1, 2, 3}, 300); i > 0; i-- {
 		n.Update = append(n.Update, genUpdate(t))
 	}
-	for i := rapid.SampledFrom([]int{0, 0, 0, 1, 1, 2}).Draw(t, "nd"); i > 0; i-- {
+	for i := genSize(t, dimEntries, "nd", []int{0, 0, 0, 1, 1, 2}, 300); i > 0; i-- {
 		n.Delete = append(n.Delete, genPath(t, false))
 	}
 	return n
 }
 
 // genValidNotification draws a benign notification for the pre-state.
-func genValidNotification(t *rapid.T, ts int64) *pb.Notification {
+func genValidNotification(t *rapid.T, ts int64, target string) *pb.Notification {
 	name := func() string { return rapid.SampledFrom([]string{"a", "b", "c"}).Draw(t, "vname") }
-	n := &pb.Notification{Timestamp: ts, Prefix: &pb.Path{Target: "dev"}}
+	n := &pb.Notification{Timestamp: ts, Prefix: &pb.Path{Target: target}}
 	if rapid.IntRange(0, 3).Draw(t, "vprefix") == 0 {
 		n.Prefix.Elem = []*pb.PathElem{{Name: name()}}
 	}
@@ -209,10 +398,20 @@ func genValidNotification(t *rapid.T, ts int64) *pb.Notification {
 		n.Prefix.Elem = []*pb.PathElem{{Name: name()}, {Name: "at"}}
 	}
 	for i := rapid.IntRange(1, 2).Draw(t, "vnu"); i > 0; i-- {
-		n.Update = append(n.Update, &pb.Update{
-			Path: &pb.Path{Elem: []*pb.PathElem{{Name: name()}, {Name: name()}}},
-			Val:  rapid.SampledFrom(vals).Draw(t, "vval"),
-		})
+		p := &pb.Path{Elem: []*pb.PathElem{{Name: name()}, {Name: name()}}}
+		// a wide pre-state: list entries with several keys, deeper paths
+		if bigDims[dimPre] || bigDims[dimKeys] || bigDims[dimElems] {
+			if rapid.Bool().Draw(t, "vkeyed") {
+				p.Elem[0].Key = map[string]string{}
+				for j := genSize(t, dimKeys, "vnk", []int{1, 2}, 12); j > 0; j-- {
+					p.Elem[0].Key[fmt.Sprintf("k%d", j)] = rapid.SampledFrom([]string{"1", "2", "3", "4", "5", "6", "7"}).Draw(t, "vkv")
+				}
+			}
+			for j := genSize(t, dimElems, "vdeep", []int{0, 0, 1}, 38); j > 0; j-- {
+				p.Elem = append(p.Elem, &pb.PathElem{Name: name()})
+			}
+		}
+		n.Update = append(n.Update, &pb.Update{Path: p, Val: rapid.SampledFrom(vals).Draw(t, "vval")})
 	}
 	return n
 }
@@ -225,8 +424,8 @@ func wire(m proto.Message) []byte {
 	return b
 }
 
-// genSubscribeRequest draws a hostile SubscribeRequest.
-func genSubscribeRequest(t *rapid.T, first bool) *pb.SubscribeRequest {
+// genSubscribeRequest draws a hostile SubscribeRequest naming, mostly, one of the targets.
+func genSubscribeRequest(t *rapid.T, first bool, targets []string) *pb.SubscribeRequest {
 	shape := rapid.IntRange(0, 19).Draw(t, "reqshape")
 	switch {
 	case shape == 0:
@@ -237,9 +436,14 @@ func genSubscribeRequest(t *rapid.T, first bool) *pb.SubscribeRequest {
 		return &pb.SubscribeRequest{Request: &pb.SubscribeRequest_Subscribe{}}
 	}
 	sl := &pb.SubscriptionList{
-		Mode:        pb.SubscriptionList_Mode(rapid.SampledFrom([]int32{0, 0, 1, 1, 2, 2, 3, -1}).Draw(t, "mode")),
+		Mode:        pb.SubscriptionList_Mode(genEnum(t, "mode", 3)),
 		UpdatesOnly: rapid.IntRange(0, 4).Draw(t, "uo") == 0,
-		Encoding:    pb.Encoding(rapid.IntRange(0, 5).Draw(t, "enc")),
+		Encoding:    pb.Encoding(genEnum(t, "enc", 5)),
+	}
+	if rapid.IntRange(0, 15).Draw(t, "extras") == 0 {
+		sl.AllowAggregation = true
+		sl.Qos = &pb.QOSMarking{Marking: rapid.Uint32().Draw(t, "qos")}
+		sl.UseModels = []*pb.ModelData{{Name: genStr(t, "model", []string{"", "m"}), Organization: "o", Version: "1"}}
 	}
 	switch rapid.IntRange(0, 19).Draw(t, "sprefix") {
 	case 0:
@@ -248,13 +452,24 @@ func genSubscribeRequest(t *rapid.T, first bool) *pb.SubscribeRequest {
 		sl.Prefix = &pb.Path{}
 	default:
 		sl.Prefix = genPath(t, false)
-		sl.Prefix.Target = rapid.SampledFrom([]string{"dev", "dev", "dev", "*", "*", "*", "other", "nosuch", ""}).Draw(t, "starget")
-		sl.Prefix.Origin = rapid.SampledFrom([]string{"", "", "o", "meta"}).Draw(t, "sorigin")
+		switch rapid.IntRange(0, 8).Draw(t, "stargetclass") {
+		case 0, 1, 2:
+			sl.Prefix.Target = targets[0]
+		case 3, 4:
+			sl.Prefix.Target = rapid.SampledFrom(targets).Draw(t, "starget")
+		case 5, 6:
+			sl.Prefix.Target = "*"
+		default:
+			sl.Prefix.Target = genStr(t, "stargetodd", []string{"nosuch", ""})
+		}
+		sl.Prefix.Origin = genStr(t, "sorigin", []string{"", "", "o", "meta"})
 	}
-	for i := rapid.SampledFrom([]int{0, 1, 1, 2, 3}).Draw(t, "nsub"); i > 0; i-- {
-		s := &pb.Subscription{Path: genPath(t, true), Mode: pb.SubscriptionMode(rapid.IntRange(0, 3).Draw(t, "smode"))}
+	for i := genSize(t, dimSubs, "nsub", []int{0, 1, 1, 2, 3}, 100); i > 0; i-- {
+		s := &pb.Subscription{Path: genPath(t, true), Mode: pb.SubscriptionMode(genEnum(t, "smode", 3))}
 		if rapid.IntRange(0, 5).Draw(t, "sinterval") == 0 {
 			s.SampleInterval = rapid.Uint64().Draw(t, "si")
+			s.HeartbeatInterval = rapid.SampledFrom([]uint64{0, 1, math.MaxUint64}).Draw(t, "hb")
+			s.SuppressRedundant = rapid.Bool().Draw(t, "sr")
 		}
 		sl.Subscription = append(sl.Subscription, s)
 	}
@@ -269,11 +484,11 @@ func genSubscribeResponse(t *rapid.T) *pb.SubscribeResponse {
 	case 1:
 		return &pb.SubscribeResponse{Response: &pb.SubscribeResponse_SyncResponse{SyncResponse: rapid.Bool().Draw(t, "sync")}}
 	case 2:
-		return &pb.SubscribeResponse{Response: &pb.SubscribeResponse_Error{Error: &pb.Error{Code: 5, Message: "x"}}}
+		return &pb.SubscribeResponse{Response: &pb.SubscribeResponse_Error{Error: &pb.Error{Code: rapid.SampledFrom([]uint32{5, 0, 16, 17, math.MaxUint32}).Draw(t, "code"), Message: genStr(t, "errmsg", []string{"x", ""})}}}
 	case 3:
 		return &pb.SubscribeResponse{Response: &pb.SubscribeResponse_Update{}}
 	default:
-		n := genNotification(t)
+		n := genNotification(t, allTargets)
 		if n.Prefix != nil && rapid.IntRange(0, 2).Draw(t, "notarget") == 0 {
 			n.Prefix.Target = ""
 		}
